@@ -633,7 +633,8 @@ func workList(thorough bool) (items []item, bound string) {
 		bound = "2 providers: every ordered list; 3 providers: every multiset with stake in {1,2}, alternately in stake-descending order (the keeper's order) and reversed; " +
 			"4 providers: every multiset with stake 1, alternately in both orders"
 	}
-	// heavy items first (round-robin over the shards then balances them)
+	// fewer providers first (a deadline on a busy machine then cuts the 4-provider lists only), heavy items first
+	// among equals (round-robin over the shards then balances them)
 	weight := func(it item) int64 {
 		var t int64
 		for _, p := range it.cfg {
@@ -642,7 +643,12 @@ func workList(thorough bool) (items []item, bound string) {
 		n := int64(len(it.cfg))
 		return t * n * n
 	}
-	sort.SliceStable(items, func(i, j int) bool { return weight(items[i]) > weight(items[j]) })
+	sort.SliceStable(items, func(i, j int) bool {
+		if len(items[i].cfg) != len(items[j].cfg) {
+			return len(items[i].cfg) < len(items[j].cfg)
+		}
+		return weight(items[i]) > weight(items[j])
+	})
 	return items, bound
 }
 
@@ -683,7 +689,7 @@ func runCheck(run *ev.Run) {
 	setup()
 	thorough := ev.Tier() == "thorough"
 	t0 := time.Now()
-	deadline := t0.Add(100 * time.Second)
+	deadline := t0.Add(80 * time.Second)
 	if thorough {
 		deadline = t0.Add(14 * time.Minute)
 	}
